@@ -40,6 +40,8 @@ GRID_CFG = {
 FILE_SAMPLE = {"quick": 100, "thorough": 1500}      # cases per GridIndex cfg replayed once more through a file
 REFINE_CFG = {"quick": "OctreeRefineQuick.cfg", "thorough": "OctreeRefineFull.cfg"}
 CURVE_CFG = {"quick": "CurvePartsQuick.cfg", "thorough": "CurvePartsFull.cfg"}
+CURVE_EDIT_CFG = {"quick": "CurveEditQuick.cfg", "thorough": "CurveEditFull.cfg"}
+READONLY_STATES = {"quick": 40, "thorough": 400}     # parameter states per class probed in a read-only workspace
 CACHE_KINDS = ["Grid2D", "Block", "Octree", "Drape"]
 CACHE_SCOPE = {"quick": 1, "thorough": 2}
 NEG_CONTROLS = [
@@ -51,6 +53,8 @@ NEG_CONTROLS = [
     ("OctreeRefine", "OctreeRefineAsBuilt.cfg", "CountMatches"),
     ("CurveParts", "CurvePartsNegChain.cfg", "JoinConsecutiveSamePartOnly"),
     ("CurveParts", "CurvePartsAsBuilt.cfg", "PartsAgreeWithConnectivity"),
+    ("CurveParts", "CurveEditNegKeeps.cfg", "PartsAgreeAfterEdit"),
+    ("CentroidCache", "CentroidCacheNegReadOnly.cfg", "CacheCoherent"),
     ("CentroidCache", "CentroidCacheNegRotation.cfg", "CacheCoherent"),
     ("CentroidCache", "CentroidCacheNegCount.cfg", "CacheCoherent"),
     ("CentroidCache", "CentroidCacheAsBuiltOrigin.cfg", "ReadIsCurrent"),
@@ -353,6 +357,70 @@ def _replay_curve(case):
     return viol
 
 
+def _judge_partition(parts, n, want, sig, text, bad):
+    if len(parts) != n:
+        bad("parts-length", f"{text}: {len(parts)} part labels for {n} vertices")
+        return False
+    got = _partition(parts)
+    if got != want:
+        bad(sig, f"{text}: parts {parts} group the vertices as {got}; connected components are {want}")
+        return False
+    return True
+
+
+def _replay_curve_edit(case):
+    """History for curves: create, read cells and parts (the labels are then cached), remove cells / vertices,
+    read cells and parts again.  Expected geometry and partitions before and after come from TLC (ExportEdit)."""
+    from geoh5py import Workspace
+    from geoh5py.objects import Curve
+    viol = []
+
+    def bad(sig, msg):
+        viol.append({"signature": sig, "summary": msg, "case": {"engine": "curve-edit", "case": case}})
+
+    n = len(case["labels"])
+    verts = np.array([[float(i), 0.5 * i * i, -1.0 * i] for i in range(n)])
+    op, idx = case["op"], sorted(case["idx"])
+    want1 = sorted(sorted(b) for b in case["parts"])
+    want2 = sorted(sorted(b) for b in case["parts2"])
+    cells2 = sorted(tuple(c) for c in case["cells2"])
+    modes = [("parts", {"parts": [lab - 1 for lab in case["labels"]]})]
+    if case["cells"]:
+        modes.append(("cells", {"cells": np.array(case["cells"], dtype="uint32")}))
+    with Workspace() as ws:
+        for mode, kw in modes:
+            text = f"[created with {mode}] labels {case['labels']}, {op}({idx})"
+            try:
+                obj = Curve.create(ws, vertices=verts, **kw)
+                cells = obj.cells
+                cells = [] if cells is None else np.asarray(cells).tolist()
+                parts = np.asarray(obj.parts).tolist()          # fills the cache of derived labels
+            except Exception as exc:  # pylint: disable=broad-except
+                bad(f"curve-create-raises:{type(exc).__name__}", f"{text}: {type(exc).__name__}: {exc}")
+                continue
+            if sorted((min(a, b), max(a, b)) for a, b in cells) != sorted(tuple(c) for c in case["cells"]):
+                bad("cells-from-parts", f"{text}: cells {cells} before the edit, expected {case['cells']}")
+                continue
+            if not _judge_partition(parts, n, want1, "parts-disagree-with-connectivity", text + " before the edit", bad):
+                continue
+            try:
+                getattr(obj, op)(list(idx))
+                cells = obj.cells
+                cells = [] if cells is None else np.asarray(cells).tolist()
+                n_after = 0 if obj.vertices is None else int(np.asarray(obj.vertices).shape[0])
+                parts = np.asarray(obj.parts).tolist()
+            except Exception as exc:  # pylint: disable=broad-except
+                bad(f"curve-{op}-raises:{type(exc).__name__}", f"{text}: {type(exc).__name__}: {exc}")
+                continue
+            if n_after != case["n2"] or sorted((min(a, b), max(a, b)) for a, b in cells) != cells2:
+                bad(f"curve-{op}-geometry", f"{text}: {n_after} vertices, cells {cells}; expected {case['n2']} vertices, "
+                                            f"cells {case['cells2']}")
+                continue
+            _judge_partition(parts, case["n2"], want2, f"parts-disagree-with-connectivity-after-{op}",
+                             text + f": cells are now {cells}", bad)
+    return viol
+
+
 # ---------------------------------------------------------------------------------------------- engine 4: CentroidCache
 def _api_value(name, val):
     if name == "origin":
@@ -618,6 +686,104 @@ def _walks_from_graph(kind, res, tier, seed):
     return walks, stats
 
 
+def _readonly_items(kind, res, limit, seed):
+    """Mode "r" graph -> one item per parameter state: the object is written to a file in that state; every probe
+    re-opens the file read-only, reads the centres (cache filled), calls one setter (its write-through is refused)
+    and reads again.  A setter has two successors in the graph (value stored / not stored): the harness follows the
+    one whose parameters the object reports, so nothing is demanded about where the setter fails."""
+    g = tlc.build_graph(res.lines)
+    init = set(graph.split_init(res.lines))
+    out = {}
+    for src, dst, lab in g.edges:
+        out.setdefault(src, []).append((dst, lab))
+
+    def read_edge(key):
+        return next(((d, lab) for d, lab in out.get(key, []) if lab["act"] == "Read"), None)
+
+    items = []
+    for key, st in g.states.items():
+        if st["cached"] or not st["consistent"]:
+            continue
+        first = read_edge(key)
+        if first is None:
+            continue
+        probes = {}
+        for dst, lab in out.get(first[0], []):
+            if lab["act"] == "Read":
+                continue
+            pk = (lab["act"], json.dumps(lab["arg"]))
+            probe = probes.setdefault(pk, {"act": lab["act"], "val": lab["val"], "alts": []})
+            nxt = read_edge(dst)
+            probe["alts"].append({"state": g.states[dst], "stored": lab["stored"], "read": nxt[1] if nxt else None})
+        for probe in probes.values():
+            probe["alts"].sort(key=lambda a: not a["stored"])
+        items.append({"kind": kind, "init": st, "is_init": key in init, "read0": first[1],
+                      "probes": [probes[k] for k in sorted(probes)]})
+    items = canon(items)
+    chosen, full = funcheck.sample(items, limit, seed, always=lambda it: it["is_init"])
+    return chosen, full, len(items)
+
+
+def _replay_readonly(item):
+    import uuid as _uuid
+    from geoh5py import Workspace
+    from ..pool import scratch
+    kind = item["kind"]
+    low = kind.lower()
+    viol = []
+    path = os.path.join(scratch(), f"c17_ro_{_uuid.uuid4().hex}.geoh5")
+    try:
+        try:
+            ws = Workspace.create(path)
+            uid = _create_cached(ws, kind, item["init"]).uid
+            ws.close()
+        except Exception as exc:  # pylint: disable=broad-except
+            return [{"signature": "__skipped__", "summary": f"state cannot be created directly: {type(exc).__name__}", "case": {}}]
+        for probe in item["probes"]:
+            one = {"kind": kind, "init": item["init"], "is_init": item["is_init"], "read0": item["read0"], "probes": [probe]}
+            done = ["reopen mode=r"]
+
+            def bad(sig, msg, one=one, done=done):
+                viol.append({"signature": sig, "summary": f"after {done}: {msg}", "case": {"engine": "readonly", "item": one}})
+
+            with Workspace(path, mode="r") as ws2:
+                found = ws2.get_entity(uid)
+                obj = found[0] if found else None
+                if obj is None or _state_mismatch(obj, item["init"]):
+                    return [{"signature": "__skipped__", "summary": "state does not survive the reload", "case": {}}]
+                done.append("centroids")
+                sigs = judge_centroids(low, read_centroids(obj), obj.n_cells, item["init"]["n"], pts(item["read0"]["ideal"]),
+                                       None, None, None, bad)
+                if sigs:
+                    continue
+                raised = "accepted"
+                try:
+                    setattr(obj, "octree_cells" if probe["act"] == "octree_cells_records" else probe["act"],
+                            _api_value(probe["act"], probe["val"]))
+                except Exception as exc:  # pylint: disable=broad-except
+                    raised = f"refused with {type(exc).__name__}"
+                done.append(f"{probe['act']}={funcheck.short(probe['val'], 60)} ({raised})")
+                alt = next((a for a in probe["alts"] if not _state_mismatch(obj, a["state"])), None)
+                if alt is None:
+                    mism = _state_mismatch(obj, probe["alts"][0]["state"])
+                    bad(f"{low}-readonly-setter-state", "the parameters are neither the old nor the new ones: "
+                        + "; ".join(m for _, m in mism))
+                    continue
+                if alt["read"] is None:
+                    continue
+                done.append("centroids")
+                try:
+                    n_cells = obj.n_cells
+                except Exception as exc:  # pylint: disable=broad-except
+                    n_cells = f"raises {type(exc).__name__}"
+                judge_centroids(low, read_centroids(obj), n_cells, alt["state"]["n"], pts(alt["read"]["ideal"]),
+                                None, None, None, bad)
+    finally:
+        if os.path.exists(path):
+            os.remove(path)
+    return viol
+
+
 # ---------------------------------------------------------------------------------------------- TLC jobs
 def _tlc_workers():
     procs = int(os.environ.get("VERIF_PROCS", "16"))
@@ -665,11 +831,13 @@ def run(tier, seed):
         jobs.append((("refine", REFINE_CFG[tier]), "OctreeRefine", REFINE_CFG[tier], wk, None))
     if "curve" in sel:
         jobs.append((("curve", CURVE_CFG[tier]), "CurveParts", CURVE_CFG[tier], wk, None))
+        jobs.append((("curve", CURVE_EDIT_CFG[tier]), "CurveParts", CURVE_EDIT_CFG[tier], wk, None))
     if "cache" in sel:
         for kind in CACHE_KINDS:
             sc = CACHE_SCOPE[tier]
             jobs.append((("cache-ideal", kind), "CentroidCache", f"CentroidCache{kind}Ideal{sc}.cfg", wk, None))
             jobs.append((("cache-graph", kind), "CentroidCache", f"CentroidCache{kind}Export{sc}.cfg", 1, None))
+            jobs.append((("cache-ro", kind), "CentroidCache", f"CentroidCache{kind}ReadOnly{sc}.cfg", 1, None))
     prefix = {"grid": "GridIndex", "refine": "OctreeRefine", "curve": "CurveParts", "cache": "CentroidCache"}
     negs = [n for n in NEG_CONTROLS if any(n[0] == prefix[e] for e in sel)]
     jobs += [(("neg", cfg), module, cfg, 2, expect) for module, cfg, expect in negs]
@@ -684,7 +852,7 @@ def run(tier, seed):
     samples = []
     exhaustive = True
     for key, res in results.items():
-        if key[0] in ("grid", "refine", "curve", "cache-ideal"):
+        if key[0] in ("grid", "refine", "curve", "cache-ideal", "cache-ro"):
             states += res.distinct
             trans += res.generated
 
@@ -735,6 +903,12 @@ def run(tier, seed):
             raise MachineryError("CurveParts: no singleton part or no 5-vertex labeling generated")
         mid = chosen[len(chosen) // 2]
         samples.append({"engine": "CurveParts", "case": mid})
+        cases, chosen = function_engine("CurveParts", ("curve", CURVE_EDIT_CFG[tier]), _replay_curve_edit, None)
+        ops = {c["op"] for c in chosen}
+        if ops != {"remove_cells", "remove_vertices"} or not any(len(c["parts2"]) > len(c["parts"]) for c in chosen):
+            raise MachineryError(f"CurveParts edits: operations {ops}, or no edit that splits a part")
+        mid = chosen[len(chosen) // 2]
+        samples.append({"engine": "CurveParts-edit", "case": mid})
     if "cache" in sel:
         for kind in CACHE_KINDS:
             res = results[("cache-graph", kind)]
@@ -748,6 +922,21 @@ def run(tier, seed):
             stats.update({"engine": "CentroidCache", "ideal_states": ideal.distinct, "ideal_generated": ideal.generated,
                           "replay_wall_s": round(wall, 1), "violations": len(v)})
             per[f"CentroidCache{kind}"] = stats
+            ro = results[("cache-ro", kind)]
+            items, full, total = _readonly_items(kind, ro, READONLY_STATES[tier], seed)
+            exhaustive = exhaustive and full
+            v, wall = funcheck.replay_all(_replay_readonly, items)
+            skipped = sum(1 for x in v if x["signature"] == "__skipped__")
+            v = [x for x in v if x["signature"] != "__skipped__"]
+            n_probes = sum(len(it["probes"]) for it in items)
+            if skipped >= len(items) or n_probes == 0:
+                raise MachineryError(f"CentroidCache {kind}: no parameter state could be probed in a read-only workspace")
+            viol += v
+            replayed += len(items) - skipped
+            per[f"CentroidCache{kind}ReadOnly"] = {
+                "engine": "CentroidCache mode r", "tlc_states": ro.distinct, "tlc_generated": ro.generated,
+                "parameter_states": total, "states_probed": len(items) - skipped, "states_not_creatable": skipped,
+                "setter_probes": n_probes, "replay_wall_s": round(wall, 1), "violations": len(v)}
             w = walks[len(walks) // 2]
             samples.append({"engine": "CentroidCache", "kind": kind,
                             "walk": [lab["act"] + ("" if lab["act"] == "Read" else "=" + funcheck.short(lab["arg"], 30))
@@ -797,6 +986,10 @@ def replay(doc):
         v = _replay_curve(case["case"])
     elif eng == "cache":
         v = _replay_walk(case["item"])
+    elif eng == "curve-edit":
+        v = _replay_curve_edit(case["case"])
+    elif eng == "readonly":
+        v = [x for x in _replay_readonly(case["item"]) if x["signature"] != "__skipped__"]
     else:
         raise MachineryError(f"unknown engine {eng}")
     return {"violations": v, "coverage": {"replayed": 1}}
